@@ -523,7 +523,90 @@ Definition dval_run (c : Z) : option Z :=
   if (48 <=? c) && (c <=? 57) then Some (c - 48)
   else if (1632 <=? c) && (c <=? 1641) then Some (c - 1632)       (* ARABIC-INDIC DIGIT *)
   else if (65296 <=? c) && (c <=? 65305) then Some (c - 65296)    (* FULLWIDTH DIGIT *)
+  else if (2406 <=? c) && (c <=? 2415) then Some (c - 2406)       (* DEVANAGARI DIGIT *)
   else None.
+
+(* ---------- Token.unescape / Token.unescape_to_bytes over the real digit test ----------
+   tokenizer.py tests the characters of a \DDD escape with str.isdecimal() and converts them with
+   int(c): `dval c` = Some d iff c.isdecimal(), d = int(c) - ASCII digits and the decimal digits of
+   every other script.  (The shared TokM.v fixes the ASCII classifier; unescape_ascii_agrees ties the
+   two.)  A character that is a digit for str.isdigit() only (superscripts, circled digits) has
+   dval = None: it is an ordinary escaped character. *)
+Section Escapes.
+  Variable dval : Z -> option Z.
+
+  Fixpoint ue_loop_g (v : list Z) (acc : list Z) : res (list Z) :=
+    match v with
+    | [] => Ok (rev acc)
+    | c :: r =>
+        if c =? 92 then
+          match r with
+          | [] => Lib eUnexpectedEnd
+          | c1 :: r1 =>
+              match dval c1 with
+              | Some d1 =>
+                  match r1 with
+                  | [] => Lib eUnexpectedEnd
+                  | c2 :: r2 =>
+                      match r2 with
+                      | [] => Lib eUnexpectedEnd
+                      | c3 :: r3 =>
+                          match dval c2, dval c3 with
+                          | Some d2, Some d3 =>
+                              let cp := d1 * 100 + d2 * 10 + d3 in
+                              if cp >? 255 then Lib eSyntax else ue_loop_g r3 (cp :: acc)
+                          | _, _ => Lib eSyntax
+                          end
+                      end
+                  end
+              | None => ue_loop_g r1 (c1 :: acc)
+              end
+          end
+        else ue_loop_g r (c :: acc)
+    end.
+
+  Fixpoint ub_loop_g (v : list Z) (acc : list Z) : res (list Z) :=
+    match v with
+    | [] => Ok (rev acc)
+    | c :: r =>
+        if c =? 92 then
+          match r with
+          | [] => Lib eUnexpectedEnd
+          | c1 :: r1 =>
+              match dval c1 with
+              | Some d1 =>
+                  match r1 with
+                  | [] => Lib eUnexpectedEnd
+                  | c2 :: r2 =>
+                      match r2 with
+                      | [] => Lib eUnexpectedEnd
+                      | c3 :: r3 =>
+                          match dval c2, dval c3 with
+                          | Some d2, Some d3 =>
+                              let cp := d1 * 100 + d2 * 10 + d3 in
+                              if cp >? 255 then Lib eSyntax else ub_loop_g r3 (cp :: acc)
+                          | _, _ => Lib eSyntax
+                          end
+                      end
+                  end
+              | None =>
+                  match TokM.utf8_cp c1 with
+                  | Ok b => ub_loop_g r1 (rev b ++ acc)
+                  | Lib e => Lib e
+                  | Internal e => Internal e
+                  end
+              end
+          end
+        else
+          match TokM.utf8_cp c with
+          | Ok b => ub_loop_g r (rev b ++ acc)
+          | Lib e => Lib e
+          | Internal e => Internal e
+          end
+    end.
+End Escapes.
+
+Definition dval_ascii (c : Z) : option Z := if TokM.is_decimal c then Some (c - 48) else None.
 
 (* ---------- dns.grange.from_text ----------
    int(cur) of a string of decimal characters: ValueError when it is empty *)
@@ -654,6 +737,12 @@ Definition run (c : obs) : obs :=
       match option_from_wire wire otype current olen with
       | (Val _, s) => N
       | (Exn x, s) => obs_of_exn x
+      end
+  (* Token.unescape (which = 0) / Token.unescape_to_bytes (which = 1) of a value with escapes *)
+  | L [I 34; L t; I which] =>
+      match zs_of_obs t with
+      | Some v => obs_of_res (fun l => L (map I l)) (if which =? 0 then ue_loop_g dval_run v [] else ub_loop_g dval_run v [])
+      | None => E eBadCase
       end
   (* dns.message.from_wire *)
   | L [I 40; B wire; I bits] => msg_obs wire bits
